@@ -141,3 +141,17 @@ def check(P: Project, R: Report) -> None:
         txt = subst_text(node.value, st) if node.value is not None else ""
         o = an.origin(txt)
         R.ob("R1", "the returned response carries the checked answer", "'protocolVersion'" in o and "create_response(" in o, f"{h.module.rel}:{node.lineno}", f"returns `{o[:120]}`")
+
+    # ------------------------------------------------------------------ R3: the client's half of the handshake
+    R.rule("R3", "end to end: the library client accepts the server's answer only if it is the version it proposed or a member of the caller's own supported list, and raises the version-mismatch error otherwise (the proposal and acceptance obligations of C03, read here for the clause 'every handshake ends agreed on a version both sides support or with a version-mismatch error on the client')")
+    from . import c03
+
+    sub = Report(prop="C03", tier=R.tier)
+    c03.check(P, sub)
+    n3 = 0
+    for o in sub.obligations:
+        if o.rule in ("R1", "R2"):
+            n3 += 1
+            R.ob("R3", "client: " + o.key, o.ok, o.where, o.detail)
+    R.need(n3 >= 4, "anchor: the client-side proposal/acceptance obligations were not produced")
+
